@@ -1221,6 +1221,23 @@ func c18MarkedDecls(c *Ctx) {
 							marks = true
 						}
 					}
+					// the value taken into a local first: v := x.Value; m.markExpr(v)
+					if id, ok := ast.Unparen(call.Args[0]).(*ast.Ident); ok && strings.HasSuffix(nm, "marked.markExpr") {
+						if o := info.ObjectOf(id); o != nil {
+							for _, s2 := range cc.Body {
+								ast.Inspect(s2, func(z ast.Node) bool {
+									as, isAs := z.(*ast.AssignStmt)
+									if !isAs || len(as.Lhs) != 1 || len(as.Rhs) != 1 || identObj(info, as.Lhs[0]) != o {
+										return true
+									}
+									if sel, isSel := ast.Unparen(as.Rhs[0]).(*ast.SelectorExpr); isSel && sel.Sel.Name == "Value" && identObj(info, sel.X) == bound {
+										marks = true
+									}
+									return true
+								})
+							}
+						}
+					}
 					// the whole declaration handed to a sibling marker (markComprehension walks clauses and value)
 					if bound != nil && identObj(info, call.Args[0]) == bound && strings.Contains(nm, "marked.mark") {
 						marks = true
